@@ -12,7 +12,8 @@ from vlib.runner import part, Fail, Skip
 from vlib import refsim as R, strategies as S, h_c10 as H
 
 PROPERTY = "C10"
-RULE = ("Hypothesis-generated circuits (<=4 qubits, <=10 unitary gates from the C01 gate generator, angles incl. 0/pi/2pi so that "
+RULE = ("Hypothesis-generated circuits (<=4 qubits, <=10 quick / <=14 thorough unitary gates from the C01 gate generator plus an optional "
+        "H/RY layer, angles incl. 0/pi/2pi so that "
         "impossible outcomes occur) with MEASURE gates at arbitrary positions and CMEASURE gates controlled by a dictionary "
         "(nested up to depth 2 quick / 3 thorough), a stateless function (lookup table or repeat-until-success) or a "
         "ClassicalControl subclass whose state is the history of outcomes of the shot; optional initial statevector. "
